@@ -35,6 +35,12 @@ CLAIMED = {
  "C19": dict(tech="deterministic simulation: Var builder machine (shared Rc<RefCell> state, scheduler-chosen linear extensions of builder steps, handle clone/drop/leak as steps, invariants after every step) + forget on generated lax terms; oracle = direct evaluation, reference interpreter, reference forgetting up to isomorphism",
              text="Exploration by deterministic simulation: expression DAGs built through var::build under several scheduler-chosen linear extensions with builder invariants checked on the shared state after each step, leaked handles as injected fault (Err + state handed back), and forget/forget_monogamous on arbitrary lax terms with variable hyperedges of any arity and label mix; meaning compared with direct evaluation through strict::eval and a reference interpreter. Evidence, not proof.",
              ref="§5 C19"),
+ "C12": dict(tech="deterministic simulation: harness-owned functor (second party) applied under seeded device schedules (SimKind); refinement against reference generator-wise substitution up to isomorphism",
+             text="Exploration by deterministic simulation: harness-defined functors (object images of length 0..3, operation images single / composite / spider-only / empty) applied through strict::Functor generic in the device on control, Vec and perturbed schedules, and through the lax trait via dyn_functor; results compared up to isomorphism with substitution on the plain model; functoriality instances and the identity functor. Evidence, not proof.",
+             ref="§5 C12"),
+ "C14": dict(tech="deterministic simulation: harness-owned optics under seeded device schedules; oracle = reference lens substitution and re-bending up to isomorphism, and evaluation of adapted reverse-derivative optics against reference reverse accumulation",
+             text="Exploration by deterministic simulation: generated optics (forward/reverse object maps, residuals empty/single/multiple) checked against a reference substitution of lens diagrams (typing, composition, tensor, adapt), and the reverse-derivative lenses of polynomial circuits evaluated through strict::eval on (x, dy) against reference reverse-mode differentiation over Z/2^64, strict (all device configurations) and lax (Vec) entry points. Evidence, not proof.",
+             ref="§5 C14"),
 }
 NOTE = "Trusted: the harness's plain model, reference operations and isomorphism procedure (cross-checked by selftest), and that SimKind's outcome sets cover the four documented open choices. Sizes are small (<= ~10 nodes)."
 
